@@ -1183,7 +1183,15 @@ impl<T: Config> P2PSession<T> {
                 for remote in self.player_reg.remotes.values_mut() {
                     let mut checked_frames = Vec::new();
 
-                    for (&remote_frame, &remote_checksum) in &remote.pending_checksums {
+                    // in ascending frame order, so that the events do not depend on the map's order
+                    let mut pending: Vec<(Frame, u128)> = remote
+                        .pending_checksums
+                        .iter()
+                        .map(|(&frame, &checksum)| (frame, checksum))
+                        .collect();
+                    pending.sort_unstable();
+
+                    for (remote_frame, remote_checksum) in pending {
                         if remote_frame >= self.sync_layer.last_confirmed_frame() {
                             // we're still waiting for inputs for this frame
                             continue;
